@@ -14,6 +14,14 @@
     §C decided obligations over the inventory of index sites regenerated from /repo's AST and
        the kernel behaviours regenerated from the installed torch
        (harness/translators/indexsites.py → TE/Gen/IndexSites.lean).
+    What C14 needs from an index site is that it cannot write (or read) outside its buffer.  A site
+    that no guard protects (`unguardedSites`) uses a kernel of the WRAPPING or DROPPING kind; such a
+    kernel keeps the buffer's extent for every index (`kernel_keeps_extent`) and never produces an
+    undefined access (`kernel_defined_unless_unchecked`): an out-of-range label there yields a normal
+    return with a wrong VALUE — which satisfies C14 ("return normally or raise") and is a matter of
+    C04/C06/C18 — never an access outside the buffer.  Only the `unchecked` kinds could leave it, and
+    `unchecked_kernels_are_guarded` decides that they are reached through an explicit check or
+    constructed indices only.
   NOT decidable by this technique: native memory safety inside torch kernels, interpreter
   crashes and hangs — those are observed by the fault enumeration in a child process.
 -/
@@ -338,7 +346,12 @@ def behaviourOf (k : String) : Option Behaviour :=
 
 /-- the index sites that NO guard protects on this tree (file, function, kernel kind, unconstructed roots):
     an upper bound — a site that gets a guard may stay listed, a new unguarded site breaks
-    `index_sites_guarded`.  Consequences on the real code: harness/props/c14.py (`UNGUARDED`). -/
+    `index_sites_guarded`.  All of them use kernels of the wrapping (`index_aug`, `index_get`) or
+    dropping (`histc`) kind (`unchecked_kernels_are_guarded`), so by `kernel_keeps_extent` and
+    `kernel_defined_unless_unchecked` they cannot write outside the buffer — which is what C14 needs;
+    the wrong value a call then returns (see `unguarded_kernel_witness`, `binned_target_out_of_range_witness`,
+    `perplexity_negative_target_witness`) is outside C14.  What the real code does there is printed into
+    the evidence on every run: harness/props/c14.py (`UNGUARDED`, `accepted_out_of_range_inputs`). -/
 def unguardedSites : List (String × String × String × String) := [
   ("functional/classification/binned_precision_recall_curve.py", "_update", "histc", "target"),
   ("functional/classification/binned_precision_recall_curve.py", "_multiclass_binned_precision_recall_curve_update_memory",
@@ -363,9 +376,11 @@ theorem kernel_raises_sites_probed :
 /-- every site's kernel kind has been probed. -/
 theorem every_site_kind_probed : ∀ s ∈ Gen.indexSites, (behaviourOf s.kind).isSome = true := by decide +kernel
 
-/-- the kernels that can leave their buffer (`unchecked`) are only reached through an explicit
-    check or with constructed indices; hence the unguarded sites above are of the wrapping /
-    dropping kinds: silently wrong results, but no access outside a buffer. -/
+/-- **the memory-safety obligation of C14 over the inventory**: the kernels that can leave their
+    buffer (`unchecked`) are only reached through an explicit check or with constructed indices;
+    hence the unguarded sites above are of the wrapping / dropping kinds, which keep the buffer's
+    extent and are always defined (`kernel_keeps_extent`, `kernel_defined_unless_unchecked`):
+    possibly a wrong value, but no access outside a buffer. -/
 theorem unchecked_kernels_are_guarded :
     ∀ s ∈ Gen.indexSites, behaviourOf s.kind = some .unchecked → s.guard = .explicitCheck ∨ s.guard = .byConstruction := by
   decide +kernel
